@@ -161,7 +161,19 @@ def direct_oracle(inp, obs):
     return None
 
 
+PLAIN = {"format": "delimited", "header": 0, "checks": [],
+         "fields": [{"name": "a", "empty": True, "type": "Text", "choices": [], "length": None}, {"name": "b", "empty": True, "type": "Text", "choices": [], "length": None}]}
+PLAIN_FIXED = {"format": "fixed", "header": 0, "checks": [], "line_delimiter": "lf",
+               "fields": [{"name": "a", "empty": True, "type": "Text", "choices": [], "length": [[6, 6]]}, {"name": "b", "empty": True, "type": "Text", "choices": [], "length": [[3, 3]]}]}
+
+
 def gen_inputs(tier, rnd):
+    # rows the target's encoding refuses between rows it takes, shorter and longer ones: each row stands for itself
+    for spec in (PLAIN, PLAIN_FIXED):
+        for rows in ([["abcdef", "x\u00e4"], ["a", "b"], ["\u00e4", "b"], ["abc", "d"]], [["a", "\u20ac"], ["abcdef", "xyz"], ["b", ""]],
+                     [["abcdef", "xy\u00e4"], ["abcdef", "xyz"], ["", "\u00e4"], ["", ""]], [["\u00e4b", "c"], ["a", "c"], ["\u00e4", ""], ["ab", "c"]]):
+            yield {"spec": spec, "rows": rows, "ascii": True}
+            yield {"spec": spec, "rows": rows, "ascii": True, "ops": [["rows", rows[:2]], ["row", rows[2]], ["rows", rows[3:]]]}
     for _ in range(700 if tier == "quick" else 8000):
         spec = V.gen_spec(rnd, header=rnd.choice([0, 0, 1, 1, 2, 3]))
         if spec["format"] == "fixed":
